@@ -14,24 +14,40 @@ KEYWORD_IDS = ["int", "long", "class", "struct", "register", "default", "double"
                "public", "static", "const", "volatile", "if", "for", "do", "while", "enum", "signed", "unsigned"]
 # hyphenated identifiers (escaping of '-') and awkward shapes
 HYPHEN_IDS = ["a-b", "a-b-c", "x-1", "int-1", "is-a", "e-", "id-x", "long-name-with-many-parts", "a1-b2", "z-9"]
+# identifiers whose '-' -> '_' image is a C++ keyword / alternative token (former finding F80: looked up after the escaping now)
+HYPHEN_KEYWORD_IDS = ["and-eq", "not-eq", "or-eq", "xor-eq", "wchar-t", "char16-t", "char32-t", "const-cast", "dynamic-cast",
+                      "reinterpret-cast", "static-cast", "static-assert", "thread-local"]
 # identifiers that asn1c itself uses in generated structures
-# ("free", "print", "constraint" as ENUMERATED items of a named type are finding F86: steered around, witness replayed)
+# ("free", "print", "constraint", "t", "decode-ber" ... as ENUMERATED items of a named type: former finding F86, capitalised now)
 INTERNAL_IDS = ["present", "choice", "list", "count", "size", "buf", "array", "ctx", "nothing", "member",
-                "specifics", "elements", "name", "op", "tags", "main", "value", "type", "oms", "td", "sptr", "st"]
+                "specifics", "elements", "name", "op", "tags", "main", "value", "type", "oms", "td", "sptr", "st",
+                "free", "print", "constraint", "t", "decode-ber", "encode-uper"]
 NASTY_TYPE_NAMES = ["Int", "Member", "A-B", "Type-1", "T-PR", "Class", "Struct", "NULL-T", "Asn-DEF", "X-t", "E-PR-x", "Long"]
 
 class NGen(genmod.Gen):
     """genmod.Gen with identifiers drawn also from the nasty pools.  Identifiers stay unique per module
     (asn1c without -fcompound-names needs module-unique identifiers for inline constructed members)."""
     def __init__(self, rng, nasty=0.5, **kw):
+        if kw.get("avoid") is None: kw["avoid"] = genmod.Avoid(negative_default=False)   # negative DEFAULTs are generated (F43 repaired)
         super().__init__(rng, **kw)
         self.nasty = nasty
         self.used_ids = set()
-        self.pool = KEYWORD_IDS + HYPHEN_IDS + INTERNAL_IDS
+        self.pool = KEYWORD_IDS + HYPHEN_IDS + INTERNAL_IDS + HYPHEN_KEYWORD_IDS
     def default_for(self, t):
+        """as genmod.Gen, plus: negative INTEGER DEFAULTs and DEFAULTs naming a negatively numbered ENUMERATED item are
+        chosen on purpose (former finding F43: the DEFAULT helper identifiers were built from the value's text)"""
         d = super().default_for(t)
-        # F43 region: a DEFAULT that resolves to a negative number (also through an ENUMERATED item) is steered around
-        if d and isinstance(d[0], int) and not isinstance(d[0], bool) and d[0] < 0: return None
+        if d is None or self.avoid.negative_default: return d
+        if t["k"] == "INTEGER" and self.r.random() < 0.5:
+            c = t.get("cons")
+            cands = [v for v in (-1, -2, -128, -32769, -2147483648) if genmod.in_cons(c, v)]
+            if c and c.get("lo") is not None and c["lo"] < 0: cands.append(c["lo"])
+            if cands:
+                v = self.r.choice(cands); return (v, str(v))
+        if t["k"] == "ENUMERATED":
+            negs = [(n, v) for n, v in t["items"] if v is not None and v < 0]
+            if negs and self.r.random() < 0.7:
+                n, v = self.r.choice(negs); return (v, n)
         return d
     def ident(self, p="m"):
         r = self.r
